@@ -681,8 +681,8 @@ def generate(rng, tier, outdir):
     _W["w"] = w
     q = tier == "quick"
     N = dict(split=200 if q else 2500, combine=200 if q else 2500, labels=300 if q else 3000, qmap=150 if q else 1500,
-             separate=750 if q else 7000, pcq=300 if q else 3000, cut=250 if q else 2500, problem=900 if q else 8000,
-             preplaced=400 if q else 4000, freshcut=400 if q else 5000)
+             separate=700 if q else 7000, pcq=300 if q else 3000, cut=250 if q else 2500, problem=800 if q else 8000,
+             preplaced=300 if q else 4000, freshcut=300 if q else 5000)
 
     # ---- _split_barriers ----
     for _ in range(N["split"]):
